@@ -1378,6 +1378,11 @@ class C16(core.PropertyCheck):
             for shape in ("dir", "dangling", "selflink"):
                 for via in ("open", "project"):
                     yield {"kind": "tomlraw", "tag": shape, "shape": shape, "via": via}
+            # a broken snooty.toml in the directory that is opened, a valid one in the directory above it: the problem of the
+            # file that was asked for has to be reported - not the other project opened in silence
+            for tag, inner in (("inner-wrong-type", 'name = 5\n'), ("inner-syntax", 'name = "x\n'), ("inner-unknown-field", 'name = "x"\nno_such_field = 1\n')):
+                for via in ("open", "project"):
+                    yield {"kind": "tomlraw", "tag": tag, "shape": "inner", "inner": inner, "via": via}
         # 3b. facets.toml: the other configuration file of a project (read by the postprocessor through
         #     ProjectConfig.load_facets_from_file): well-formed documents, every malformed shape, and text damage
         from impl import c02disk
@@ -1472,6 +1477,11 @@ class C16(core.PropertyCheck):
                     os.symlink("nowhere.toml", root / "snooty.toml")
                 elif case.get("shape") == "selflink":
                     os.symlink("snooty.toml", root / "snooty.toml")
+                elif case.get("shape") == "inner":
+                    root.joinpath("snooty.toml").write_text('name = "outer"\n', encoding="utf-8")
+                    root = root / "inner"
+                    root.mkdir()
+                    root.joinpath("snooty.toml").write_text(case["inner"], encoding="utf-8")
                 else:
                     root.joinpath("snooty.toml").write_bytes(bytes.fromhex(case["hex"]))
                 if case["via"] == "open":
@@ -1674,6 +1684,9 @@ class C16(core.PropertyCheck):
         if kind == "tomlraw":
             if impl["out"] == "other":
                 return f"opening the project raised {impl['exc']} at stage {impl.get('stage', 'config')} ({impl['msg']}) instead of reporting a configuration diagnostic [snooty.toml: {case['tag']}]"
+            if case.get("shape") == "inner" and impl["out"] != "ProjectLoadError" and not [d for d in impl.get("diags", []) if d[0] == "UnmarshallingError"]:
+                return (f"the snooty.toml of the directory that was opened is broken ({case['tag']}) but nothing was reported: the configuration of the "
+                        f"directory above it was opened in its place")
             return None
         if kind == "toml":
             if impl["out"] == "other":
